@@ -20,7 +20,11 @@ on strings.  The functions are those a *fresh* object computes; C20 proves that 
 change them.
 -/
 import AutomataVerif.Proofs.Query
+import AutomataVerif.Proofs.Random
 import Mathlib.Data.Set.Card
+import Mathlib.Order.Interval.Finset.Nat
+import Mathlib.Tactic.FieldSimp
+import Mathlib.Algebra.Order.Field.Rat
 
 namespace AV.Props.C13
 open AV AV.DFA
@@ -89,6 +93,166 @@ theorem C13_count_zero_iff (d : AV.DFA σ α) (hv : d.validate = .ok ()) (hd : d
     have := (C13_words_mem d hv (fun _ => 0) k w).mp hw
     exact h w this.1 this.2
 
+
+/-! ## random_word
+
+`randomWord d k cs` is `random_word(k)` where `cs` lists the successive results of
+`rng.randint(0, total - 1)`.  `InRange` is the contract of `randint`: every result is below the
+`total` of its step.  Uniformity is a counting statement about these results. -/
+
+theorem cnt_pos_of_acceptsFrom {d : AV.DFA σ α} (wf : d.WF) (hd : d.IsDict) {q : σ} (hq : q ∈ d.states)
+    {w : List α} (hw : d.acceptsFrom q w = true) : 0 < d.cnt w.length q := by
+  unfold DFA.cnt
+  rw [cget_countLevel_eq_length hd (fun _ => 0)]
+  exact List.length_pos_of_mem ((mem_wordLevel wf (fun _ => 0) w.length q w (Or.inr hq)).mpr ⟨rfl, hw⟩)
+
+/-- A random word of length `k` is an accepted word of length `k` (no exception, no
+fall-through of the inner loop) whenever such words exist. -/
+theorem C13_random_member (d : AV.DFA σ α) (hv : d.validate = .ok ()) (hd : d.IsDict) (k : Nat)
+    (cs : List Nat) (hpos : d.countWordsOfLength k ≠ 0) (hin : d.InRange k d.init cs) :
+    ∃ w, d.randomWord k cs = .ok w ∧ w.length = k ∧ w ∈ Lang d := by
+  have wf := (DFA.validate_eq_ok d).mp hv
+  have hpos' : 0 < d.cnt k d.init := Nat.pos_of_ne_zero hpos
+  obtain ⟨w, qf, hrun, hlen, hrd, hfin⟩ := randomWordLoop_ok wf hd k d.init cs [] wf.initOk hpos' hin
+  refine ⟨w, ?_, hlen, ?_⟩
+  · rw [randomWord_eq]
+    unfold DFA.randomWordCore
+    have h0 : decide (d.cnt k d.init = 0) = false := by simp; omega
+    simp only [h0, hrun, List.reverse_nil, List.nil_append]
+    simp [hfin]
+  · show d.accepts w = true
+    simp [DFA.accepts, hrd, DFA.isFinal, hfin]
+
+/-- Asking for a length with no words raises `ValueError` … -/
+theorem C13_random_none (d : AV.DFA σ α) (k : Nat) (cs : List Nat)
+    (h0 : d.countWordsOfLength k = 0) : d.randomWord k cs = .error (.py .valueError) := by
+  rw [randomWord_eq]
+  unfold DFA.randomWordCore
+  have h0' : d.cnt k d.init = 0 := h0
+  have : decide (d.cnt k d.init = 0) = true := by simpa using h0'
+  simp only [this]
+
+/-- … and only then: `ValueError` iff the language has no word of length `k`. -/
+theorem C13_random_valueError_iff (d : AV.DFA σ α) (hv : d.validate = .ok ()) (hd : d.IsDict)
+    (k : Nat) (cs : List Nat) (hin : d.InRange k d.init cs) :
+    d.randomWord k cs = .error (.py .valueError) ↔ ∀ w, w.length = k → w ∉ Lang d := by
+  rw [← C13_count_zero_iff d hv hd k]
+  constructor
+  · intro he
+    by_cases h0 : d.countWordsOfLength k = 0
+    · exact h0
+    · obtain ⟨w, hw, _⟩ := C13_random_member d hv hd k cs h0 hin
+      rw [hw] at he; cases he
+  · exact C13_random_none d k cs
+
+/-- Number of outcomes `c` of `randint(0, total - 1)` — in the state `q` with `r + 1` symbols
+to go, `total = _count_cache[r+1][q]` — for which the inner loop selects the edge `e`. -/
+def selecting (d : AV.DFA σ α) (r : Nat) (q : σ) (e : α × σ) : Nat :=
+  ((Finset.range (d.cnt (r + 1) q)).filter fun c => pickEdge (d.cnt r) (d.row q) c = some e).card
+
+/-- **One step is count-weighted**: the edge `(a, q')` is selected by exactly
+`_count_cache[r][q']` of the `total` equally likely outcomes. -/
+theorem C13_random_step (d : AV.DFA σ α) (hd : d.IsDict) (r : Nat) (q : σ)
+    (hq : q ∈ d.states) (e : α × σ) (he : e ∈ d.row q) : selecting d r q e = d.cnt r e.2 := by
+  have hnd : (d.row q).Nodup := by
+    have := row_keys_nodup hd q
+    unfold akeys at this
+    exact List.Nodup.of_map _ this
+  obtain ⟨pre, post, hrow⟩ := List.append_of_mem he
+  rw [hrow] at hnd
+  have hpre : e ∉ pre := by
+    intro h
+    have := (List.nodup_append.mp hnd).2.2 e h e (List.mem_cons_self)
+    exact this rfl
+  have hpost : e ∉ post := by
+    have := (List.nodup_append.mp hnd).2.1
+    exact (List.nodup_cons.mp this).1
+  unfold selecting
+  have htotal : d.cnt (r + 1) q = weight (d.cnt r) pre + (d.cnt r e.2 + weight (d.cnt r) post) := by
+    rw [cnt_succ]; simp [hq, hrow, weight_append]
+  have : (Finset.range (d.cnt (r + 1) q)).filter
+      (fun c => pickEdge (d.cnt r) (d.row q) c = some e) =
+      Finset.Ico (weight (d.cnt r) pre) (weight (d.cnt r) pre + d.cnt r e.2) := by
+    ext c
+    simp only [Finset.mem_filter, Finset.mem_range, Finset.mem_Ico, hrow,
+      pickEdge_eq_some_iff (d.cnt r) pre post e hpre hpost c]
+    omega
+  rw [this, Nat.card_Ico]
+  omega
+
+/-- Probability that the loop, started in `q` with `|w|` symbols to go, outputs `w`, when every
+`randint(0, total - 1)` is uniform and independent of the earlier ones: the product over the
+steps of (number of outcomes selecting the symbol) / `total`. -/
+def wordProb (d : AV.DFA σ α) : σ → List α → ℚ
+  | _, [] => 1
+  | q, a :: w =>
+    match d.step? (some q) a with
+    | some t => (selecting d w.length q (a, t) : ℚ) / (d.cnt (w.length + 1) q : ℚ) * wordProb d t w
+    | none => 0
+
+theorem wordProb_eq {d : AV.DFA σ α} (wf : d.WF) (hd : d.IsDict) :
+    ∀ (w : List α) (q : σ), q ∈ d.states → d.acceptsFrom q w = true →
+      wordProb d q w = 1 / (d.cnt w.length q : ℚ) := by
+  intro w
+  induction w with
+  | nil =>
+    intro q _ hw
+    have : q ∈ d.finals := by simpa [DFA.acceptsFrom, DFA.isFinal] using hw
+    simp only [wordProb, cnt_zero, this, if_true, List.length_nil]
+    norm_num
+  | cons a w ih =>
+    intro q hq hw
+    simp only [DFA.acceptsFrom, DFA.run_cons] at hw
+    cases hs : d.step? (some q) a with
+    | none => rw [hs, isFinal_run_cons_none] at hw; cases hw
+    | some t =>
+      rw [hs] at hw
+      have hmem : (a, t) ∈ d.row q := alookup_some_mem hs
+      have ht : t ∈ d.states := row_vals_states wf (alookup_some_val_mem hs)
+      have hpos := cnt_pos_of_acceptsFrom wf hd ht hw
+      have hpos' : 0 < d.cnt (w.length + 1) q :=
+        cnt_pos_of_acceptsFrom wf hd hq (w := a :: w) (by simp [DFA.acceptsFrom, DFA.run_cons, hs, hw])
+      simp only [wordProb, hs, C13_random_step d hd w.length q hq (a, t) hmem, ih t ht hw,
+        List.length_cons]
+      have h1 : (d.cnt w.length t : ℚ) ≠ 0 := by exact_mod_cast Nat.pos_iff_ne_zero.mp hpos
+      have h2 : (d.cnt (w.length + 1) q : ℚ) ≠ 0 := by exact_mod_cast Nat.pos_iff_ne_zero.mp hpos'
+      generalize (d.cnt w.length t : ℚ) = x at h1 ⊢
+      generalize (d.cnt (w.length + 1) q : ℚ) = y at h2 ⊢
+      field_simp
+
+/-- **Uniformity**: every accepted word of length `k` is produced with probability exactly
+`1 / count_words_of_length(k)`, the same for all of them. -/
+theorem C13_random_uniform (d : AV.DFA σ α) (hv : d.validate = .ok ()) (hd : d.IsDict)
+    (w : List α) (hw : w ∈ Lang d) :
+    wordProb d d.init w = 1 / (d.countWordsOfLength w.length : ℚ) :=
+  wordProb_eq ((DFA.validate_eq_ok d).mp hv) hd w d.init ((DFA.validate_eq_ok d).mp hv).initOk hw
+
+/-- Words outside the language (or unreadable) have probability 0. -/
+theorem C13_random_zero (d : AV.DFA σ α) (hv : d.validate = .ok ()) (hd : d.IsDict) :
+    ∀ (w : List α) (q : σ), q ∈ d.states → d.acceptsFrom q w = false → 0 < w.length →
+      wordProb d q w = 0 := by
+  have wf := (DFA.validate_eq_ok d).mp hv
+  intro w
+  induction w with
+  | nil => intro q _ _ h; simp at h
+  | cons a w ih =>
+    intro q hq hw _
+    simp only [DFA.acceptsFrom, DFA.run_cons] at hw
+    cases hs : d.step? (some q) a with
+    | none => simp [wordProb, hs]
+    | some t =>
+      rw [hs] at hw
+      have hmem : (a, t) ∈ d.row q := alookup_some_mem hs
+      have ht : t ∈ d.states := row_vals_states wf (alookup_some_val_mem hs)
+      simp only [wordProb, hs, C13_random_step d hd w.length q hq (a, t) hmem]
+      cases w with
+      | nil =>
+        have : t ∉ d.finals := by simpa [DFA.isFinal] using hw
+        simp [cnt_zero, this, wordProb]
+      | cons b w' =>
+        rw [ih t ht hw (by simp)]
+        simp
+
 /-! ## non-vacuity -/
 
 /-- `0*1⁺` over symbols 0,1 (state 2 is a trap): a complete DFA with an infinite language. -/
@@ -112,5 +276,9 @@ example : exD.wordsOfLength id 3 = [[0, 0, 1], [0, 1, 1], [1, 1, 1]] ∧ exD.cou
   decide
 example : exF.wordsOfLength id 2 = [[0, 1], [1, 0], [1, 1]] ∧ exF.countWordsOfLength 2 = 3 ∧
     exF.countWordsOfLength 3 = 0 := by decide
+
+example : exD.InRange 2 exD.init [1, 0] := by decide
+example : exD.randomWord 2 [1, 0] = .ok [1, 1] ∧ exD.randomWord 2 [0, 0] = .ok [0, 1] := by decide
+example : exF.randomWord 3 [] = .error (.py .valueError) := by decide
 
 end AV.Props.C13
